@@ -101,14 +101,23 @@ type World struct {
 	// Token reaches 0 is deleted together with the undistributed remainder of its rewards):
 	// a validator without delegations never withdraws below max(MinSelfStake, 1 unit), and
 	// only once per period (a second withdrawal could force the full withdrawal).
-	NoEmpty   bool
+	NoEmpty bool
+	// NoNegRec: exclusion of the recorded finding negative-pending-record (a self-withdrawal
+	// stores the remaining SELF tokens in the validator's pending record, a later delegation
+	// unbind of the same period subtracts from it as if it were the TOTAL: the record goes
+	// negative, cannot be encoded, and every pending transaction of the period is dropped):
+	// no unbind from a validator that has a self-withdrawal pending in the same period.
+	NoNegRec bool
+	// Builder, if set, replaces Node.Build for blocks it accepts (C06: the real miner worker).
+	Builder   func(cb common.Address, txs []*types.Transaction, opt BuildOpts) (*Built, error)
 	period    uint64
 	withdrawn map[common.Address]bool
+	selfWithdrawn map[common.Address]bool // validators with a vwithdraw op issued in the current period
 	Excluded  map[string]int
 }
 
 func NewWorld(net *Net) *World {
-	return &World{Net: net, yp: Params(), future: map[common.Address][]uint64{}, Excluded: map[string]int{}, withdrawn: map[common.Address]bool{}}
+	return &World{Net: net, yp: Params(), future: map[common.Address][]uint64{}, Excluded: map[string]int{}, withdrawn: map[common.Address]bool{}, selfWithdrawn: map[common.Address]bool{}}
 }
 
 func unit(n int64) *big.Int { return new(big.Int).Mul(big.NewInt(n), params.StakeUint) }
@@ -164,7 +173,9 @@ func stakingIntrinsic(data []byte) uint64 {
 // gasLimit returns the gas limit for a tx whose intrinsic cost is `intr` and which
 // needs `extra` execution gas.
 func gasLimit(op Op, intr, extra uint64, blockGasLimit uint64) uint64 {
-	switch mod(op.G, 12) {
+	switch mod(op.G, 16) {
+	case 12:
+		return blockGasLimit / 10 * 9 // nearly a whole block (a failing staking tx burns all of it)
 	case 9:
 		return intr // exactly intrinsic
 	case 10:
@@ -515,7 +526,13 @@ func (w *World) MakeTx(op Op, st *state.StateDB, vals []*state.Validator, nonces
 		case "vwithdraw":
 			minSelf := unit(int64(yp.MinSelfStakes[role]))
 			var val *big.Int
-			switch mod(op.M, 8) {
+			switch mod(op.M, 16) {
+			case 8: // leave max(MinSelfStake, 10 + N%20 units)
+				keep := unit(int64(10 + mod(op.N, 20)))
+				if keep.Cmp(minSelf) < 0 {
+					keep = new(big.Int).Set(minSelf)
+				}
+				val = new(big.Int).Sub(selfToken, keep)
 			case 1:
 				val = new(big.Int).Set(selfToken)
 			case 2:
@@ -556,6 +573,7 @@ func (w *World) MakeTx(op Op, st *state.StateDB, vals []*state.Validator, nonces
 				}
 				w.withdrawn[main] = true
 			}
+			w.selfWithdrawn[main] = true
 			rcpt := Accounts[mod(op.X&63, NAcct)].Addr
 			if mod(op.X&63, NAcct+2) == NAcct {
 				rcpt = common.Address{} // refused by PreCheck
@@ -653,6 +671,10 @@ func (w *World) MakeTx(op Op, st *state.StateDB, vals []*state.Validator, nonces
 			}
 			return stakingTx(sender, staking.DelegationAdd, &staking.TxDelegation{Validator: main, Value: val}, 0, txv)
 		case "dsub":
+			if w.NoNegRec && w.selfWithdrawn[main] {
+				w.Excluded["excluded:negative-pending-record"]++
+				return skip()
+			}
 			if w.NoEmpty && v != nil && v.SelfToken.Sign() == 0 {
 				// the last delegator leaving a validator without own tokens would delete it
 				w.Excluded["excluded:deleted-validator-dust"]++
